@@ -244,6 +244,67 @@ pub fn run(ctx: &RunCtx) -> i32 {
             shared.merge(r);
         });
     }
+    // every protected-prefix length: one DATA blob of 0..=300 bytes (all residues of the 64-byte hash block, both
+    // padding thresholds) x 3 tails, fault walks for every length (thorough) / lengths <= 140 (quick)
+    {
+        let ks = &keys[0];
+        let subj = ks.subject().unwrap();
+        let raw = ks.ref_bytes();
+        let near: Vec<(KeySpec, HMACKey)> = menu::near_keys(ks).into_iter().filter_map(|n| n.subject().ok().map(|s| (n, s))).collect();
+        (0..=300usize).into_par_iter().for_each(|n| {
+            let kk = Keyed { spec: ks, subject: &subj, raw: &raw };
+            let mut r = Report::new();
+            for tail in [vec![L::Mi], vec![L::Sha], vec![L::Mi, L::Sha, L::Fp]] {
+                let mut attrs = vec![L::Data((0..n).map(|x| (x * 11 + 3) as u8).collect())];
+                attrs.extend(tail);
+                check_msg(&menu::lmsg(1, 1, [0x44; 12], attrs), &kk, &near, thorough || n <= 140, &mut r);
+            }
+            r.sym("prefix-length-sweep");
+            shared.merge(r);
+        });
+    }
+    // deep messages (menu::deep_msgs: offsets around 256..4096, long runs, repeats, rotations, quads) x 2 tails under a
+    // short-term and a long-term key, no fault walk
+    {
+        let deep = menu::deep_msgs(thorough);
+        for ks in [&keys[0], keys.iter().find(|k| matches!(k, KeySpec::Long { sha256: true, .. })).unwrap_or(&keys[0])] {
+            let subj = ks.subject().unwrap();
+            let raw = ks.ref_bytes();
+            let near: Vec<(KeySpec, HMACKey)> = menu::near_keys(ks).into_iter().filter_map(|n| n.subject().ok().map(|s| (n, s))).take(3).collect();
+            deep.par_chunks(32).for_each(|ch| {
+                let kk = Keyed { spec: ks, subject: &subj, raw: &raw };
+                let mut r = Report::new();
+                for lm in ch {
+                    for tail in [vec![L::Sha], vec![L::Mi, L::Sha, L::Fp]] {
+                        let mut m = lm.clone();
+                        m.attrs.extend(tail);
+                        check_msg(&m, &kk, &near, false, &mut r);
+                    }
+                }
+                r.sym("deep-messages");
+                shared.merge(r);
+            });
+        }
+    }
+    // offset family: the integrity attribute behind a filler at every body offset of menu::offset_points up to the
+    // 65,532-byte maximum, no fault walk
+    {
+        let ks = &keys[0];
+        let subj = ks.subject().unwrap();
+        let raw = ks.ref_bytes();
+        let near: Vec<(KeySpec, HMACKey)> = menu::near_keys(ks).into_iter().filter_map(|n| n.subject().ok().map(|s| (n, s))).take(2).collect();
+        let xs: Vec<Vec<L>> = vec![vec![]];
+        let tails = vec![vec![L::Mi], vec![L::Sha], vec![L::Mi, L::Sha, L::Fp]];
+        menu::offset_msgs(thorough, &xs, &tails, [0x75; 12]).par_chunks(8).for_each(|ch| {
+            let kk = Keyed { spec: ks, subject: &subj, raw: &raw };
+            let mut r = Report::new();
+            for lm in ch {
+                check_msg(lm, &kk, &near, false, &mut r);
+            }
+            r.sym("offset-family");
+            shared.merge(r);
+        });
+    }
     let mut rep = shared.into_inner();
     rep.outcome("accepted-iff-untampered-under-right-key");
     rep.outcome(format!("violations:{}", rep.violations.len()));
@@ -252,9 +313,9 @@ pub fn run(ctx: &RunCtx) -> i32 {
         rep,
         Finish {
             level: "fault_enumeration",
-            rule: format!("messages with 0..=2 body attributes over the {}-entry menu (values <=64 bytes; long values as singles) x 6 legal tails containing MI and/or SHA256 x {} keys (short-term incl. non-ASCII, long-term MD5 and SHA-256); for each: wire bytes == reference (independent HMAC over the RFC input under the independently derived key), every integrity attribute accepted under the right key whatever tail follows, rejected under every key differing in one character of user / realm / password (or algorithm), and rejected after every single-bit fault in the protected prefix (except header bytes 2-3), the attribute's own header and the MAC (pairs only under the first 3 keys; quick tier: pairs walk faults under one rotating tail). Acceptance = validating decoder returns the attribute OR get_input_text+validate says true. Non-trivial = message that passed all of these", menu_v.len(), keys.len()),
+            rule: format!("messages with 0..=2 body attributes over the {}-entry menu (values <=64 bytes; long values as singles) x 6 legal tails containing MI and/or SHA256 x {} keys (short-term incl. non-ASCII, long-term MD5 and SHA-256); for each: wire bytes == reference (independent HMAC over the RFC input under the independently derived key), every integrity attribute accepted under the right key whatever tail follows, rejected under every key differing in one character of user / realm / password (or algorithm), and rejected after every single-bit fault in the protected prefix (except header bytes 2-3), the attribute's own header and the MAC (pairs only under the first 3 keys; quick tier: pairs walk faults under one rotating tail). Plus one DATA blob of every length 0..=300 x 3 tails (fault walks for every length in the thorough tier, <=140 in the quick tier) and the deep messages of C01 (offsets around 256..4096 / 32768, long runs, repeats, rotations, quads) x 2 tails under a short-term and a long-term SHA-256 key, without fault walks; the offset family (MI / SHA256 / MI+SHA256+FINGERPRINT behind a filler at every 4-aligned body offset 0..=4200 (thorough 16,400), around multiples of 4096 (1024), every offset 65,300 up to the 65,532-byte maximum). Acceptance = validating decoder returns the attribute OR get_input_text+validate says true. Non-trivial = message that passed all of these", menu_v.len(), keys.len()),
             assumptions: vec!["R-strings table for the non-ASCII passwords".into()],
-            required_symbols: vec!["key-derivation", "accepted-untampered", "rejected-wrong-key", "fault-walks", "long-values"],
+            required_symbols: vec!["key-derivation", "accepted-untampered", "rejected-wrong-key", "fault-walks", "long-values", "prefix-length-sweep", "deep-messages", "offset-family"],
             min_outcomes: 2,
             exhaustive: true,
             bounds: json!({"menu": menu_v.len(), "keys": keys.len(), "tails": 6}),
